@@ -193,3 +193,21 @@ PROPS["C15"] = {
         {"func": "verifH_C15_evidence", "pkg": "document", "unwind": 64, "no_replay": True, "expect_reach": ["imported", "rejected"]},
     ],
 }
+
+PROPS["C19"] = {
+    "patterns": ["./document"],
+    "harness": {"document": ["document/c12.go", "document/c19.go"]},
+    "level_text": "Claimed in part (TLV-based files, oracle by construction): each file is built from symbolic leaves by a trivial encoder over a concrete skeleton and fed to the real constructor; z3 shows that every view field equals the leaf it was built from after the documented transformation, that every repeated element appears, that RawData equals the input and does not alias the caller's slice. Files: DG11 (personal number, BCD full date of birth -> digits via an exact model of Sprintf(%x), telephone, title with fillers removed, proof-of-citizenship bytes; every subset of these tags), DG7 (1..3 images, all present and in order), DG2 (1..3 biometric templates with the ISO 19794 record parser stubbed to yield one image per template: all templates and all images present), EF.COM (LDS/Unicode version, tag list), DG13 and DG15 (content = value of the outer object). Wrong-group rejection: for NewDG1/7/11/12/13/15/16/COM every single well-formed object whose one-byte outer tag differs from the data group's tag is rejected. DG1/MRZ content is C18.",
+    "level_note": "Not applicable to this technique: DG14, EF.SOD content, CardAccess, CardSecurity and all SecurityInfos (decoded by encoding/asn1 reflection), ISO 19794/39794 record internals (encoding/binary.Read / asn1), country table look-ups, the identity summary's time-dependent parts. DG12, DG16 person records and the name-splitting of DG11 are exercised for crashes only (C12). The DG2 harness uses a stub for the record parser and cannot be replayed natively.",
+    "bounds": "leaf values of 1..6 symbolic bytes; 1..3 repeated elements; all subsets of five DG11 tags; outer tags: all one-byte values",
+    "outside": "multi-byte outer tags in the wrong-group check; the ASN.1 based files; larger repetition counts",
+    "assumptions": [],
+    "jobs": [
+        {"func": "verifH_C19_dg11", "pkg": "document", "unwind": 64, "expect_reach": ["dg11"]},
+        {"func": "verifH_C19_dg7", "pkg": "document", "params": {"K": [1, 2, 3]}, "unwind": 64, "expect_reach": ["dg7"]},
+        {"func": "verifH_C19_dg2", "pkg": "document", "params": {"K": [1, 2, 3]}, "unwind": 64, "no_replay": True, "redirect": {"github.com/gmrtd/gmrtd/document/iso19794.ProcessISO19794": "verifStubISO19794"}, "expect_reach": ["dg2"]},
+        {"func": "verifH_C19_com", "pkg": "document", "unwind": 64, "expect_reach": ["com"]},
+        {"func": "verifH_C19_unwrap", "pkg": "document", "params": {"N": [0, 1, 5]}, "unwind": 64, "expect_reach": ["unwrapped"]},
+        {"func": "verifH_C19_wrongtag", "pkg": "document", "params": {"ctor": [1, 7, 11, 12, 13, 15, 16, 20]}, "unwind": 64, "expect_reach": ["called"]},
+    ],
+}
